@@ -573,8 +573,8 @@ class Fxp():
             val_max, val_min = np.max(val), np.min(val)
             if isinstance(val_max, np.generic):
                 val_max, val_min = val_max.item(), val_min.item()
-            val_max = int(val_max*(1 << n_frac))
-            val_min = int(val_min*(1 << n_frac))
+            val_max = int(val_max*2**n_frac)
+            val_min = int(val_min*2**n_frac)
             n_int = 0
             while n_int < n_word_max - sign:
                 msb_max = (val_max >> n_int) + (1 if val_max < 0 else 0)
